@@ -357,6 +357,9 @@ class Design:
     lines = [f'    @update_ff' if b['ff'] else '    @update', f'    def blk{b["id"]}():']
     for (t, op, rhs) in b['stmts']:
       tgt = self.oexpr(t, comp)
+      if op == 'for':
+        lines += [f'      for {tgt} in range( 2 ):', '        pass']
+        continue
       sym = {'at': '@=', 'ff': '<<=', 'assign': '='}[op]
       if rhs[0] == 'k': r = tconst_src(self.otype(t), rhs[1])
       elif rhs[0] == 'r': r = self.oexpr(rhs[1], comp)
@@ -510,6 +513,8 @@ def gen_legal(rng, nnets=None, levels=None, extra_blocks=True, d1=False):
       same = [b for b in d.blks if b['comp'] == comp and b['ff'] == ff]
       blk = rng.choice(same) if same and rng.random() < 0.4 else d.new_blk(comp, ff)
       d.add_write(blk, o, rng)
+      if rng.random() < 0.2:       # written twice by the same block (default value, then override)
+        d.add_write(blk, o, rng, rhs=('k', rng.randrange(1 << twidth(d.otype(o)))))
       info = grow_net(d, rng, o, 'blk', nid)
       if info is None:
         pass    # the block write stays (an object written but not connected)
@@ -567,6 +572,9 @@ def gen_legal(rng, nnets=None, levels=None, extra_blocks=True, d1=False):
       ff = d.is_plain(o) and rng.random() < 0.4
       blk = d.new_blk(comp, ff)
       d.add_write(blk, o, rng)
+      # the same object written twice by one block with the legal operator (default, then override)
+      if rng.random() < 0.3:
+        d.add_write(blk, o, rng, rhs=('k', rng.randrange(1 << twidth(d.otype(o)))))
       # one block writing two related objects (the shape of the repaired F6 and of 87007f6)
       if not ff and rng.random() < 0.5:
         for x in d.relatives(o, rng):
@@ -1097,6 +1105,27 @@ def inj_op(d, rng, ff, op, shape='whole'):
   if not ff: return 'UpdateBlockWriteError'
   return 'UpdateFFBlockWriteError' if op != 'ff' else 'UpdateFFNonTopLevelSignalError'
 
+def inj_op2(d, rng, ff, bad):
+  """one block writes an object with the legal operator and, in another statement, with a wrong one;
+  the object is a whole signal, a slice or a field (update_ff: whole signal only, <<= needs one), either order"""
+  comp = rng.randrange(len(d.comps))
+  shape = 'whole' if ff else rng.choice(['whole', 'slice', 'field'])
+  typ = {'whole': rng.choice(TYPES), 'slice': ('b', rng.choice([4, 8, 12])), 'field': rng.choice([('s', 'PA'), ('s', 'PB')])}[shape]
+  sid = _own_writable(d, rng, comp, typ)
+  o = d.whole(sid)
+  if shape == 'slice':
+    lo = rng.randint(0, typ[1] - 2); o = ('sig', sid, (), (lo, rng.randint(lo + 1, typ[1] - 1 if lo == 0 else typ[1])))
+  if shape == 'field':
+    o = ('sig', sid, (rng.randrange(len(STRUCTS[typ[1]])),), None)
+  blk = d.new_blk(_writer_comp(d, o), ff)
+  good = 'ff' if ff else 'at'
+  ops = [good, bad]
+  if rng.random() < 0.5: ops.reverse()
+  if rng.random() < 0.3: ops.insert(rng.randrange(3), good)      # a third, legal, write somewhere
+  for op in ops:
+    d.add_write(blk, o, rng, op=op, rhs=('k', rng.randrange(1 << twidth(d.otype(o)))))
+  return 'UpdateFFBlockWriteError' if ff else 'UpdateBlockWriteError'
+
 INJECTORS = {
   'two_blocks': inj_two_blocks, 'blk_vs_net': inj_blk_vs_net, 'field_vs_parent': inj_field_vs_parent,
   'overlap_slices': inj_overlap_slices, 'slice_vs_whole': inj_slice_vs_whole, 'two_consts': inj_two_consts,
@@ -1107,6 +1136,12 @@ INJECTORS = {
   'op_f_eq': lambda d, r: inj_op(d, r, True, 'assign'), 'op_f_at': lambda d, r: inj_op(d, r, True, 'at'),
   'op_f_slice': lambda d, r: inj_op(d, r, True, 'ff', 'slice'), 'op_f_field': lambda d, r: inj_op(d, r, True, 'ff', 'field'),
   'op_u_eq_slice': lambda d, r: inj_op(d, r, False, 'assign', 'slice'), 'op_f_at_field': lambda d, r: inj_op(d, r, True, 'at', 'field'),
+  'op_u_for': lambda d, r: inj_op(d, r, False, 'for', r.choice(['whole', 'slice', 'field'])),
+  'op_f_for': lambda d, r: inj_op(d, r, True, 'for', r.choice(['whole', 'slice', 'field'])),
+  'op2_u_eq': lambda d, r: inj_op2(d, r, False, 'assign'), 'op2_u_ff': lambda d, r: inj_op2(d, r, False, 'ff'),
+  'op2_u_for': lambda d, r: inj_op2(d, r, False, 'for'),
+  'op2_f_eq': lambda d, r: inj_op2(d, r, True, 'assign'), 'op2_f_at': lambda d, r: inj_op2(d, r, True, 'at'),
+  'op2_f_for': lambda d, r: inj_op2(d, r, True, 'for'),
 }
 
 def inject(d, rng, kind):
@@ -1329,8 +1364,26 @@ def table_port_upblk(rng):
 
 def table_ops(rng):
   out = []
+  # a second write, in the same block, to an object the block already wrote: every (block kind, operator of the
+  # first write, operator of the second write, shape)
   for ff in (False, True):
-    for op in ('assign', 'at', 'ff'):
+    for op1 in ('assign', 'at', 'ff', 'for'):
+      for op2 in ('assign', 'at', 'ff', 'for'):
+        for shape in ('whole', 'slice', 'field'):
+          d = fixed_hierarchy()
+          comp = rng.choice([0, 1, 3])
+          typ = {'whole': rng.choice([('b', 8), ('s', 'PA')]), 'slice': ('b', 8), 'field': ('s', 'PB')}[shape]
+          sid = d.add_sig(comp, 'x', rng.choice(['wire', 'out']), typ)
+          o = d.whole(sid)
+          if shape == 'slice': o = ('sig', sid, (), (2, 6))
+          if shape == 'field': o = ('sig', sid, (rng.randrange(3),), None)
+          blk = d.new_blk(comp, ff)
+          for op in (op1, op2):
+            d.add_write(blk, o, rng, op=op, rhs=('k', rng.randrange(1 << twidth(d.otype(o)))))
+          d.labels.append((f'op2:{"ff" if ff else "comb"}:{op1}:{op2}:{shape}', None, None))
+          out.append(d)
+  for ff in (False, True):
+    for op in ('assign', 'at', 'ff', 'for'):
       for shape in ('whole', 'slice', 'field'):
         d = fixed_hierarchy()
         comp = rng.choice([0, 1, 3])
